@@ -22,7 +22,7 @@ type Oblig struct {
 	NAssume int     // assumptions [0,NAssume) are in scope
 	Src     string
 	Bounded bool
-	Self    int // index of the assumption entry derived from this obligation (-1 if none)
+	Self    int    // index of the assumption entry derived from this obligation (-1 if none)
 	Pre     *Oblig // after-call vacuity probes: the same probe taken just before the call (an infeasible path is not a vacuous contract)
 	// result
 	Status   string
@@ -82,29 +82,31 @@ type Exec struct {
 	termProved  []string
 	termMissing []string
 
-	checkLocks  bool
-	checkFrames bool
-	noOverflow  bool
-	globalIDs   map[string]int
-	freshAddrs  map[int]bool
-	boxed       []VPtr
-	iters       []rangeIter
-	curSite     string
-	unitRets    []retInfo
-	replayTerms []replayTerm
-	inlineOnly  map[string]bool
-	nilChecked  map[int][]*Term
-	compLeaf    map[string]Leaf
-	slenAxiom   bool
-	ranged      map[int]bool
-	mapLenKeys  map[string]bool
-	callpreUsed map[string]bool
-	curAlloc    *Term
-	slotAxiom   bool
-	pendingDyn  map[string]*Term
-	dynDone     map[string]bool
-	extDone     map[string]bool
-	inlineStack []*ssa.Function
+	checkLocks     bool
+	checkFrames    bool
+	noOverflow     bool
+	globalIDs      map[string]int
+	freshAddrs     map[int]bool
+	boxed          []VPtr
+	iters          []rangeIter
+	curSite        string
+	unitRets       []retInfo
+	replayTerms    []replayTerm
+	inlineOnly     map[string]bool
+	nilChecked     map[int][]*Term
+	compLeaf       map[string]Leaf
+	slenAxiom      bool
+	ranged         map[int]bool
+	mapLenKeys     map[string]bool
+	callpreUsed    map[string]bool
+	inFuncDispatch bool
+	funcVals       []VFunc // function values (closures) that were stored in memory, by identity funcIDBase+index
+	curAlloc       *Term
+	slotAxiom      bool
+	pendingDyn     map[string]*Term
+	dynDone        map[string]bool
+	extDone        map[string]bool
+	inlineStack    []*ssa.Function
 }
 
 type Frame struct {
@@ -151,7 +153,30 @@ func NewExec(w *World, unit *ssa.Function, spec *FuncSpec) *Exec {
 	return x
 }
 
+const funcIDBase = 7000001
+
+// funcID registers a function value created in this unit and returns its integer identity.
+func (x *Exec) funcID(v VFunc) *Term {
+	for i, w := range x.funcVals {
+		if w.Fn == v.Fn && len(w.Bindings) == len(v.Bindings) {
+			same := true
+			for j := range w.Bindings {
+				if !sameVal(w.Bindings[j], v.Bindings[j]) {
+					same = false
+				}
+			}
+			if same {
+				return x.C.Int(int64(funcIDBase + i))
+			}
+		}
+	}
+	x.funcVals = append(x.funcVals, v)
+	return x.C.Int(int64(funcIDBase + len(x.funcVals) - 1))
+}
+
 func (x *Exec) reset() {
+	x.funcVals = nil
+	x.Sh.FuncID = x.funcID
 	x.assumes = nil
 	x.obligs = nil
 	x.names = map[string]int{}
@@ -644,6 +669,18 @@ func (x *Exec) enterLoop(fr *Frame, li *loopInfo, in *State, phiEntry map[*ssa.P
 	var ls *LoopSpec
 	if fr.spec != nil && fr.spec.Loops != nil {
 		ls = fr.spec.Loops[li.ordinal]
+	}
+	// the unit may add invariants to the loops of a callee it executes by body (`inline`): the callee's own
+	// loop contract cannot talk about what this particular caller knows (e.g. which closure it passed in)
+	if x.Spec != nil && fr.spec != nil && fr.spec != x.Spec && x.Spec.ExtraLoops != nil {
+		if ex := x.Spec.ExtraLoops[fmt.Sprintf("%s.%d", fr.spec.Name, li.ordinal)]; ex != nil {
+			merged := &LoopSpec{}
+			if ls != nil {
+				*merged = *ls
+			}
+			merged.Invariants = append(append([]Clause{}, merged.Invariants...), ex.Invariants...)
+			ls = merged
+		}
 	}
 	li.spec = ls
 	x.loopsSeen++
